@@ -836,10 +836,112 @@ def check_zerofreq_case(case, tol=1e-7):
     return fails
 
 
+# ---------------------------------------------------------------------------
+# two perturbation parameters, mask with an operator that is absent from H_0, several request histories
+
+
+def gen_mask2p_case(rng):
+    def r(lo=1):
+        return [rng.choice([v for v in range(-3, 4) if abs(v) >= lo]), rng.randint(1, 4)]
+    ent = rng.choice([
+        [[["eq", 1], ["eq", -1]], [["eq", -1], ["eq", 1]]],                                              # a b† + a† b
+        [[["eq", 1], ["eq", -1]], [["eq", -1], ["eq", 1]], [["eq", 0], ["eq", 2]], [["eq", 0], ["eq", -2]]],  # ... + b^2 + b†^2
+        [[["eq", 1], ["eq", -1]], [["eq", -1], ["eq", 1]], [["eq", 1], ["eq", 1]], [["eq", -1], ["eq", -1]]],  # ... + a b + a† b†
+    ])
+    return dict(kind="mask2p", w=rng.choice([[1, 1], [17, 7], [3, 2]]), c=[r(), r(), r(0), r(0)], mask=[[ent]],
+                form=rng.choice(["expr", "dict"]), K=8, hseed=rng.randrange(10**6))
+
+
+MASK2P_ORDERS = [(1, 0), (0, 1), (1, 1), (2, 0), (0, 2)]
+
+
+def check_mask2p_case(case, tol=1e-7):
+    """H = w N_b + l1 c1 (b^2 + b†^2) + l2 (c2 (a b† + a† b) + c3 N_a N_b + c4 (a b + a† b†)) with a partial operator mask
+    that involves a (absent from H_0); every element of H_tilde, U, U† up to total order 2 is requested under several
+    histories (different first requests, fresh computation each) and must equal the masked matrix reference every time"""
+    from pymablock import block_diagonalize
+    from pymablock.series import zero, one
+    sp = Space(2, 0, case["K"])
+    a, b = sp.bos
+    w = R(*case["w"])
+    c1, c2, c3, c4 = (R(*c) for c in case["c"])
+    l1, l2 = sympy.symbols("lambda_1 lambda_2", positive=True)
+    H0 = w * Dagger(b) * b
+    H1 = c1 * (b**2 + Dagger(b) ** 2)
+    H2 = c2 * (a * Dagger(b) + Dagger(a) * b) + c3 * Dagger(a) * a * Dagger(b) * b + c4 * (a * b + Dagger(a) * Dagger(b))
+    H = H0 + l1 * H1 + l2 * H2
+    ent = case["mask"][0][0]
+    mexpr = _entry_expr(ent, [a, b])
+    fd = mexpr if case["form"] == "expr" else {0: sympy.Matrix([[mexpr]])}
+    fd_before = sympy.srepr(fd[0] if isinstance(fd, dict) else fd)
+    dim = sp.dim
+    Mref = np.zeros((dim, dim), dtype=bool)
+    for ni, n in enumerate(sp.states):
+        for mi, m in enumerate(sp.states):
+            if mask_selects(ent, [mm - nn for mm, nn in zip(m, n)]):
+                Mref[ni, mi] = True
+    elements = [(nm, o) for nm in ("H_tilde", "U", "U†") for o in MASK2P_ORDERS]
+    hr = random.Random(case["hseed"])
+    firsts = [("H_tilde", (1, 0)), ("H_tilde", (0, 1)), ("U", (1, 1)), hr.choice(elements)]
+    fails = []
+
+    def tomat(v):
+        if v is zero:
+            return np.zeros((dim, dim), dtype=complex)
+        if v is one:
+            return np.eye(dim, dtype=complex)
+        v = sympy.sympify(v)
+        if isinstance(v, sympy.MatrixBase):
+            v = v[0, 0]
+        return sp.tomat(v.subs({l1: 1, l2: 1}))
+    with warnings.catch_warnings():
+        warnings.simplefilter("ignore")
+        try:
+            h0, h1, h2 = sp.tomat(H0).real, sp.tomat(H1).real, sp.tomat(H2).real
+            ref_out = block_diagonalize({(0, 0): np.diag(np.diag(h0)), (1, 0): h1, (0, 1): h2}, fully_diagonalize={0: Mref})
+            ref = {}
+            for nm, S in zip(("H_tilde", "U", "U†"), ref_out):
+                for o in MASK2P_ORDERS:
+                    v = S[(0, 0) + o]
+                    ref[nm, o] = np.zeros((dim, dim)) if v is zero else (np.eye(dim) if v is one else np.asarray(v.toarray() if hasattr(v, "toarray") else v))
+        except Exception as e:
+            return [dict(what="masked matrix reference raised %s: %s" % (type(e).__name__, str(e)[:200]), input=case, crash=True)]
+        results = []
+        for first in firsts:
+            order = [first] + [e for e in hr.sample(elements, len(elements)) if e != first]
+            try:
+                outs = dict(zip(("H_tilde", "U", "U†"), block_diagonalize(H, symbols=[l1, l2], fully_diagonalize=fd)))
+                got = {}
+                for nm, o in order:
+                    got[nm, o] = tomat(outs[nm][(0, 0) + o])
+            except Exception as e:
+                return [dict(what="two-parameter masked block_diagonalize (first request %s) raised %s: %s" % (first, type(e).__name__, str(e)[:200]), input=case)]
+            results.append((first, got))
+            for (nm, o), m in got.items():
+                inner = sp.interior(2 * sum(o) + 1)
+                sel = np.ix_(inner, inner)
+                d = np.abs(m[sel] - ref[nm, o][sel]).max()
+                if not np.isfinite(d) or d > tol * max(1.0, np.abs(ref[nm, o]).max()):
+                    fails.append(dict(what="two-parameter operator mask with a mode absent from H_0: %s at order %s differs from the masked matrix reference by %.3g when %s at order %s is requested first"
+                                      % (nm, o, d, first[0], first[1]), input=case))
+        base = results[0][1]
+        for first, got in results[1:]:
+            for key in got:
+                d = np.abs(got[key] - base[key]).max()
+                if d > tol * max(1.0, np.abs(base[key]).max()):
+                    fails.append(dict(what="history dependence: %s at order %s differs by %.3g between the computations that requested %s and %s first"
+                                      % (key[0], key[1], d, results[0][0], first), input=case))
+        if sympy.srepr(fd[0] if isinstance(fd, dict) else fd) != fd_before:
+            fails.append(dict(what="block_diagonalize modified the caller's fully_diagonalize mask", input=case))
+    return fails[:6]
+
+
 def _dispatch(case):
     k = case.get("kind")
     if k == "zerofreq":
         return check_zerofreq_case(case)
+    if k == "mask2p":
+        return check_mask2p_case(case)
     return check_mask_case(case) if k == "mask" else check_blocks_case(case) if k == "blocks" else check_matrix_case(case) if k == "matrix" else check_case(case)
 
 
@@ -868,6 +970,15 @@ def oracle_fock(ctx, ncases=None, N=None):
         cases.append(gen_zerofreq_case(ctx.rng))
     for i in range(ctx.n(3, 45)):  # matrix-valued Hamiltonians with several blocks / fully_diagonalize lists
         cases.append(gen_blocks_case(ctx.rng))
+    # corpus: multi-condition two-mode masks that are NOT the product of their per-mode powers, with hopping in H_1
+    for ent in ([[["eq", 1], ["eq", 1]], [["eq", -1], ["eq", -1]], [["eq", 0], ["eq", 1]], [["eq", 0], ["eq", -1]]],
+                [[["eq", 1], ["eq", 0]], [["eq", -1], ["eq", 0]], [["eq", 1], ["eq", 1]], [["eq", -1], ["eq", -1]]]):
+        cases.append(dict(kind="mask", sub="scalar2", form="expr", c=[[1, 2], [2, 3], [1, 1]], mask=[[ent]], K=7, N=2))
+    # corpus + random: two parameters, mask operator absent from H_0, several request histories
+    cases.append(dict(kind="mask2p", w=[3, 2], c=[[1, 2], [1, 1], [1, 3], [0, 1]], mask=[[[[["eq", 1], ["eq", -1]], [["eq", -1], ["eq", 1]]]]],
+                      form="expr", K=8, hseed=1))
+    for i in range(ctx.n(1, 12)):
+        cases.append(gen_mask2p_case(ctx.rng))
     for i in range(ctx.n(4, 60)):  # operator-valued elimination masks (fully_diagonalize = sympy Matrix / dict / Expr)
         c = gen_mask_case(ctx.rng)
         c["N"] = N or 2
